@@ -33,7 +33,7 @@ class KaniUnit:
 
 
 class VerusUnit:
-    def __init__(self, name, tmpl, obligation, fns, paired_kani=(), timeout=600, twins_equivalent=False):
+    def __init__(self, name, tmpl, obligation, fns, paired_kani=(), timeout=600, twins_equivalent=False, advisory=False):
         self.name = name
         self.tmpl = tmpl                # template rel to /verif
         self.obligation = obligation
@@ -43,6 +43,9 @@ class VerusUnit:
         # True iff the paired Kani harnesses are complete proofs of the SAME contract on the real code: then a Verus failure with
         # passing twins is a proof-engineering failure (reported undecided), not a violation
         self.twins_equivalent = twins_equivalent
+        # True iff the unit's intermediate specification mirrors the code more closely than the property demands (so a failure need
+        # not be a violation): a failure is a violation only if a replay scenario reproduces it on the real code, else undecided
+        self.advisory = advisory
 
 
 class Property:
